@@ -3,6 +3,11 @@
 import json, pathlib, sys
 V = pathlib.Path(__file__).resolve().parent.parent
 CHECKS = {
+ "C02": dict(
+   technique="property-based testing: exhaustive discovery of the 777 public catalogue functions + Hypothesis-generated argument recipes (magnitudes, signs, units, prefixes); residual oracle against the published equation at 50 digits with a backward-error tolerance, and unit/call-style metamorphic relation",
+   text="For every function whose parameters and output correspond one-to-one to symbols of a published algebraic equation (503 of 777) the returned value and the arguments are substituted into that equation (root-agnostic residual; documented magnitude/rounded-up functions are compared with that operation applied to the harness's own solution); for every function the same physical arguments written in other units and passed by keyword must give the same SI result. 2 recipes per function quick, 24 thorough.",
+   note="Trusted: parameter<->symbol correspondence from the guard symbols / naming convention, SI values computed by the harness unit table, SymPy N at 50 digits. Calls that raise are not violations (counted; never-returning functions listed as uncovered: vector/sequence-valued functions are not generated). Ill-conditioned cases (extreme magnitudes, catastrophic cancellation in double precision) are discarded and counted. Two open known findings.",
+   ref="DESIGN.md section 2/C02"),
  "C01": dict(
    technique="exhaustive enumeration of the 677 published equations with a harness dimension-vector model (reference-model oracle) + generated Buckingham unit-rescaling metamorphic test at 50 digits; the two oracles cross-check each other",
    text="Every public Relational of every importable catalogue module is walked with the harness's own exact exponent-vector arithmetic from the declared leaf dimensions (sums/relations/min-max/piecewise agree, exponents and exp/trig/hyperbolic arguments dimensionless, derivative/integral rules), and tested numerically under generated environments and generated changes of units with multiplicatively independent factors. Exhaustive over programs, sampled over values; walker and numeric test must agree or the run is a harness error.",
